@@ -1,2 +1,140 @@
--- stub: replaced by the lsm engine driver
-def main : IO Unit := pure ()
+/-
+Line-protocol driver for the LSM engine (C01, C02).
+Reply format: `<model>\t<spec>`; spec patterns: `*` anything, `a|b` alternatives.
+
+ops:  set <cf> <key> <val> | del <cf> <key> | setv <cf> <key> <ver> <val> | delv <cf> <key> <ver>
+      get <cf> <key> | getv <cf> <key> <ver> | rotate | flush | compact l0move|keep|drain | reopen
+keys/values: hex (`-` = empty) or `rep:<byte>:<count>` (count copies of one byte).
+
+The spec column is computed from the write log only (newest first): `pick` = greatest version not
+above the requested one, most recent write among equal versions.
+-/
+import Driver.Lib
+import NoKVModel.Lsm.Model
+
+open NoKV NoKV.Lsm Driver
+
+structure DSt where
+  cfg : Cfg := Cfg.good
+  st : St := {}
+  log : List Entry := []
+
+def dirOf? : String → Option Dir
+  | "oldestFirst" => some .oldestFirst | "newestFirst" => some .newestFirst | _ => none
+
+def setCfg (c : Cfg) (kv : String) : Option Cfg :=
+  match kv.splitOn "=" with
+  | [k, v] =>
+    match k with
+    | "lsm.l0SearchDir" => do let d ← dirOf? v; pure { c with l0SearchDir := d }
+    | "lsm.tieRule" => do let o ← CmpOp.ofString? v; pure { c with tieRule := o }
+    | "lsm.crossPick" =>
+        if v == "firstHit" then some { c with crossPick := .firstHit }
+        else if v == "maxVersion" then some { c with crossPick := .maxVersion } else none
+    | "lsm.levelOrder" =>
+        if v == "ingestFirst" then some { c with levelOrder := .ingestFirst }
+        else if v == "mainFirst" then some { c with levelOrder := .mainFirst } else none
+    | "lsm.ingestOrder" =>
+        if v == "minKeyDesc" then some { c with ingestOrder := .minKeyDesc }
+        else if v == "recency" then some { c with ingestOrder := .recency } else none
+    | "lsm.immOrder" => do let d ← dirOf? v; pure { c with immOrder := d }
+    | "merge.eqKeeps" =>
+        if v == "left" then some { c with mergeKeeps := .left }
+        else if v == "right" then some { c with mergeKeeps := .right } else none
+    | "lsm.compactTopOrder" =>
+        if v == "reversed" then some { c with compactTopOrder := .reversed }
+        else if v == "forward" then some { c with compactTopOrder := .forward } else none
+    | "lsm.overlapRightKey" =>
+        if v == "maxKey" then some { c with overlapRightKey := .maxKey }
+        else if v == "minKey" then some { c with overlapRightKey := .minKey } else none
+    | "db.plainKeyLimit" => do let b ← boolOfString? v; pure { c with plainKeyLimit := b }
+    | _ => none
+  | _ => none
+
+def bytesArg? (s : String) : Option Bytes :=
+  match s.splitOn ":" with
+  | ["rep", b, n] => do
+    let b ← Bytes.ofHex? b
+    let n ← natOf? n
+    match b with
+    | [x] => pure (List.replicate n x)
+    | _ => none
+  | _ => bytesOf? s
+
+def shape (s : St) : String :=
+  s!"imm={s.imms.length} l0={s.l0.length} ing={s.ing.length} main={s.main.length}"
+
+def writeOut : WriteRes → String
+  | .ok => "ok" | .emptyKey => "emptykey" | .tooBig => "toobig" | .unsupported => "unsupported"
+
+def doWrite (d : DSt) (e : Entry) : DSt × String :=
+  let (s', r) := write d.cfg d.st e
+  -- specification: empty keys and keys above maxKeySize are rejected, everything else is logged
+  let (log', sp) :=
+    if e.key = [] then (d.log, "emptykey")
+    else if e.key.length > maxKeySize then (d.log, "toobig")
+    else (e :: d.log, "ok")
+  ({ d with st := s', log := log' }, writeOut r ++ "\t" ++ sp)
+
+def plainOut : Option Entry → String
+  | some e => if e.del then "notfound" else "val:" ++ e.val.toHex
+  | none => "notfound"
+
+def verOut : Option Entry → String
+  | some e => if e.del then "del" else "put:" ++ e.val.toHex
+  | none => "notfound"
+
+def stepD (d : DSt) (toks : List String) : DSt × String :=
+  match toks with
+  | "cfg" :: kvs =>
+    match kvs.foldlM setCfg d.cfg with
+    | some c => ({ d with cfg := c }, "ok")
+    | none => (d, "badcfg")
+  | ["set", cf, k, v] =>
+    match natOf? cf, bytesArg? k, bytesArg? v with
+    | some cf, some k, some v => doWrite d ⟨cf, k, maxVersion, v, false⟩
+    | _, _, _ => (d, "badop\t*")
+  | ["del", cf, k] =>
+    match natOf? cf, bytesArg? k with
+    | some cf, some k => doWrite d ⟨cf, k, maxVersion, [], true⟩
+    | _, _ => (d, "badop\t*")
+  | ["setv", cf, k, ver, v] =>
+    match natOf? cf, bytesArg? k, natOf? ver, bytesArg? v with
+    | some cf, some k, some ver, some v => doWrite d ⟨cf, k, ver, v, false⟩
+    | _, _, _, _ => (d, "badop\t*")
+  | ["delv", cf, k, ver] =>
+    match natOf? cf, bytesArg? k, natOf? ver with
+    | some cf, some k, some ver => doWrite d ⟨cf, k, ver, [], true⟩
+    | _, _, _ => (d, "badop\t*")
+  | ["get", cf, k] =>
+    match natOf? cf, bytesArg? k with
+    | some cf, some k =>
+      let q : IK := ⟨cf, k, maxVersion⟩
+      (d, plainOut (get d.cfg d.st q) ++ "\t" ++ plainOut (pick q d.log))
+    | _, _ => (d, "badop\t*")
+  | ["getv", cf, k, ver] =>
+    match natOf? cf, bytesArg? k, natOf? ver with
+    | some cf, some k, some ver =>
+      let q : IK := ⟨cf, k, ver⟩
+      (d, verOut (get d.cfg d.st q) ++ "\t" ++ verOut (pick q d.log))
+    | _, _, _ => (d, "badop\t*")
+  | ["engine", _] => (d, "ok\t*")
+  | ["rotate"] => let s := rotate d.st; ({ d with st := s }, "ok " ++ shape s ++ "\t*")
+  | ["flush"] =>
+    let s := flush d.st
+    ({ d with st := s }, (if d.st.imms.isEmpty then "none " else "ok ") ++ shape s ++ "\t*")
+  | ["compact", kind] =>
+    let r := match kind with
+      | "l0move" => some (l0move d.cfg d.st)
+      | "keep" => some (keep d.cfg d.st)
+      | "drain" => some (drain d.cfg d.st)
+      | _ => none
+    match r with
+    | some (s, .done) => ({ d with st := s }, "ok " ++ shape s ++ "\t*")
+    | some (s, .nothing) => ({ d with st := s }, "nothing " ++ shape s ++ "\t*")
+    | some (_, .panic) => (d, "panic\t*")
+    | none => (d, "badop\t*")
+  | ["reopen"] => let s := reopen d.st; ({ d with st := s }, "ok " ++ shape s ++ "\t*")
+  | _ => (d, "badop\t*")
+
+def main : IO Unit := Driver.loop ({} : DSt) stepD
